@@ -21,19 +21,21 @@ def flowRemovedFixed (ck pr rs tid ds dn it ht pc bc : Nat) : Bytes :=
 theorem flowRemovedFixed_length (ck pr rs tid ds dn it ht pc bc : Nat) :
     (flowRemovedFixed ck pr rs tid ds dn it ht pc bc).length = 40 := rfl
 
-/-- FlowRemoved through Parse.  `MarshalBinary` does NOT touch Header.Length: it is written and read back as it is. -/
+/-- FlowRemoved through Parse.  `MarshalBinary` stores the size in Header.Length (whatever `ln0` was there); `ln` is that
+    size, 48 + the size of the Match. -/
 theorem flowRemoved_rt (ver ln xid ck pr rs tid ds dn it ht pc bc : Nat) (m : V)
     (hver : ver < 256) (hln : ln < 65536) (hxid : xid < 4294967296) (hck : ck < 18446744073709551616) (hpr : pr < 65536)
     (hrs : rs < 256) (htid : tid < 256) (hds : ds < 4294967296) (hdn : dn < 4294967296) (hit : it < 65536)
     (hht : ht < 65536) (hpc : pc < 18446744073709551616) (hbc : bc < 18446744073709551616) (hm : MatchWF m) :
-    ∃ mbs, Match.marshalM m = .ok (mbs, m) ∧ (48 + mbs.length < 65536 →
+    ∃ mbs, Match.marshalM m = .ok (mbs, m) ∧ (ln = 48 + mbs.length →
       let v := flowRemovedV ver ln xid ck pr rs tid ds dn it ht pc bc m
       let bs := [n8 ver, n8 Gen.openflow13.Type_FlowRemoved] ++ be16 (n16 ln) ++ be32 (n32 xid)
         ++ flowRemovedFixed ck pr rs tid ds dn it ht pc bc ++ mbs
-      FlowRemoved.marshalM v = .ok (bs, v) ∧
+      (∀ ln0, FlowRemoved.marshalM (flowRemovedV ver ln0 xid ck pr rs tid ds dn it ht pc bc m) = .ok (bs, v)) ∧
       ∀ (depth : Nat) (data : Slice) (tail : Bytes), data.WF → data.bytes = bs ++ tail → parse depth data = .ok v) := by
   obtain ⟨mbs, hmm, hml, _, hmdec, h8m, hm64⟩ := match_roundtrip m hm
-  refine ⟨mbs, hmm, fun hL => ?_⟩
+  refine ⟨mbs, hmm, fun hlneq => ?_⟩
+  have hL : 48 + mbs.length < 65536 := by omega
   intro v bs
   have hto : (UInt16.ofNat mbs.length).toNat = mbs.length := by
     simp [UInt16.toNat_ofNat']; omega
@@ -44,11 +46,18 @@ theorem flowRemoved_rt (ver ln xid ck pr rs tid ds dn it ht pc bc : Nat) (m : V)
     rw [h8, h40]; omega
   refine ⟨?_, ?_⟩
   · -- encoding
-    have hlen : FlowRemoved.lenM v = .ok ((8 : UInt16) + UInt16.ofNat mbs.length + 40, v) := by
-      simp only [v, flowRemovedV, FlowRemoved.lenM, hml, Res.bind_ok]
+    intro ln0
+    have hlen : ∀ ln', FlowRemoved.lenM (flowRemovedV ver ln' xid ck pr rs tid ds dn it ht pc bc m) =
+        .ok ((8 : UInt16) + UInt16.ofNat mbs.length + 40, flowRemovedV ver ln' xid ck pr rs tid ds dn it ht pc bc m) := by
+      intro ln'
+      simp only [flowRemovedV, FlowRemoved.lenM, hml, Res.bind_ok]
+    have hu : V.u16 ((8 : UInt16) + UInt16.ofNat mbs.length + 40) = .num ln := by
+      simp only [V.u16, h48, hlneq]
     unfold FlowRemoved.marshalM
     rw [hlen]
-    simp only [Res.bind_ok, v, flowRemovedV, Header.bytes, hmm, hml, h48]
+    simp only [Res.bind_ok]
+    rw [hlen]
+    simp only [Res.bind_ok, v, flowRemovedV, Header.setLength, hu, Header.bytes, hmm, hml, h48]
     have htight : ∀ p ∈ [pCopyAdv ([n8 ver, n8 Gen.openflow13.Type_FlowRemoved] ++ be16 (n16 ln) ++ be32 (n32 xid)) 8,
         pU64 ck, pU16 pr, pU8 rs, pU8 tid, pU32 ds, pU32 dn, pU16 it, pU16 ht, pU64 pc, pU64 bc], p.Tight := by
       intro p hp
@@ -102,7 +111,7 @@ theorem flowRemoved_rt (ver ln xid ck pr rs tid ds dn it ht pc bc : Nat) (m : V)
     obtain ⟨d0, h01, h02, _⟩ := Slice.fromR_bytes data 0 (by omega)
     have hd0 : d0.WF := (Slice.fromR_wf data hd 0 d0 h01).1
     obtain ⟨_, _, hhdr⟩ := header_roundtrip ver Gen.openflow13.Type_FlowRemoved ln xid hver (by decide) hln hxid
-    have hh := hhdr (msgOfpHeader 0) d0
+    have hh : ∀ r, Header.unmarshal r d0 = _ := fun r => hhdr r d0
       (flowRemovedFixed ck pr rs tid ds dn it ht pc bc ++ mbs ++ tail) hd0
       (by rw [h02, hb]; simp only [bs, List.drop_zero, List.append_assoc])
     have e8 : rd64 (data.bytes.drop 8) = some (n64 ck) := by rw [hb']; exact rd64_be64 _ _
